@@ -200,7 +200,7 @@ type RuleFile struct {
 }
 
 // ruleVars are the variable parts of generated SecRule lines
-var ruleVars = []string{"ARGS", "ARGS", "REQUEST_COOKIES|!REQUEST_COOKIES:/__utm/|ARGS_NAMES|ARGS|XML:/*", "ARGS_NAMES|ARGS:/^json\\.\\d+$/", "REQUEST_HEADERS:User-Agent", "TX:/^old/"}
+var ruleVars = []string{"ARGS", "ARGS", "REQUEST_COOKIES|!REQUEST_COOKIES:/__utm/|ARGS_NAMES|ARGS|XML:/*", "ARGS_NAMES|ARGS:/^json\\.\\d+$/", "REQUEST_HEADERS:User-Agent", "TX:/^old/", "ARGS:/%5Bid%5D$/|ARGS:/%s/", "REQUEST_COOKIES:/^%24Version$/"}
 
 type RulesOpts struct {
 	MixedEOL      []int // per line (cycled): 1 = this line ends in CRLF although the file uses LF
@@ -477,7 +477,7 @@ func drawProgram(t *rapid.T, o ProgOpts, label string) *ProgInfo {
 			var cw []string
 			for j := 0; j < k; j++ {
 				w := drawWord(t, 2, 5, label+"-cword")
-				w += pick(t, []string{"", "", "@", "~"}, label+"-cm")
+				w += pick(t, []string{"", "", "@", "~", "@~", "~@"}, label+"-cm")
 				add(ind + "  " + w)
 				cw = append(cw, w)
 			}
